@@ -52,12 +52,16 @@ func (r *EntRepository) AddTask(ctx context.Context, param def.TaskUpdateParam) 
 		SetScheduledAt(t.ScheduledAt).
 		SetCreatedAt(t.CreatedAt).
 		SetNillableDeadline(t.Deadline.Pointer())
-	if t.Param != nil {
-		builder = builder.SetParam(t.Param)
+	// Do not fall back to the schema default for map fields:
+	// the default is a single map value, which would be shared by every created task.
+	taskParam, taskMeta := t.Param, t.Meta
+	if taskParam == nil {
+		taskParam = map[string]string{}
 	}
-	if t.Meta != nil {
-		builder = builder.SetMeta(t.Meta)
+	if taskMeta == nil {
+		taskMeta = map[string]string{}
 	}
+	builder = builder.SetParam(taskParam).SetMeta(taskMeta)
 	// other than those, use schema default. see ./schema/task.go
 
 	created, err := builder.Save(ctx)
